@@ -158,7 +158,10 @@ fn check(spec: &RbSpec, h: u64, out: &mut Vec<(String, String)>) -> u64 {
     spec.with(&mut |rb| {
         for delta in [1u64, h / 2, h] {
             let total: u64 = items(spec, delta).iter().sum();
-            for n in [1usize << 40, 1 << 60, usize::MAX - 1, usize::MAX] {
+            // (limits of 2^60 and more: an implementation that sizes a buffer by the limit fails
+            // with a catchable "capacity overflow" there; at 2^40 it would exhaust memory and
+            // abort the whole process — those are asked in C20's shard subprocesses)
+            for n in [usize::MAX, usize::MAX - 1, 1usize << 62, 1 << 60] {
                 let got = su(rb.service_needed_by_n_jobs(d(delta), n));
                 if got != total {
                     out.push((format!("{name}::service_needed_by_n_jobs#law+huge-limit"), format!("{:?}: service_needed_by_n_jobs({delta}, {n}) = {got}, service_needed = {total}", spec)));
